@@ -85,6 +85,31 @@ def gen(rng, tier):
         if rng.random() < 0.4:
             seq = [leaf(rng, "Input")] + seq
         cases.append({"kind": "seq", "recipes": [V.enc_recipe(x) for x in seq], "conv": rng.choice(["varargs", "list", "tuple"])})
+    # nodes that carry metadata a front end might have recorded (a label, an index ...): the naming scheme does not look at it
+    for _ in range(20 if tier == "quick" else 200):
+        L = rng.choice([2, 3, 5])
+        seq = []
+        for i in range(L):
+            x = leaf(rng, rng.choice(["Linear", "Linear", "LIF", "Scale", "Affine"]))
+            if rng.random() < 0.6:
+                x["args"]["metadata"] = rng.choice([{"name": "fc1"}, {"name": "linear_1"}, {"name": "linear"}, {"name": "output"}, {"name": "input"},
+                                                    {"label": "lif_1", "index": 0}, {"name": "lif", "id": 3}, {"key": "scale_1"}])
+            seq.append(x)
+        cases.append({"kind": "seq", "recipes": [V.enc_recipe(x) for x in seq], "conv": rng.choice(["varargs", "list", "tuple"])})
+    # a typed convolution directly followed by a dense layer whose fan-in happens to equal the number of conv outputs
+    # (from_list links what it is given: it never inserts nodes)
+    for _ in range(10 if tier == "quick" else 100):
+        nd = rng.choice([1, 2])
+        n, k, co = rng.choice([8, 6]), 3, rng.choice([2, 3])
+        out_elems = co * (n - k + 1) ** nd
+        conv = {"k": "Conv1d" if nd == 1 else "Conv2d",
+                "args": {"input_shape": n if nd == 1 else (n, n), "weight": np.ones((co, 1) + (k,) * nd, dtype="float32"), "stride": 1,
+                         "padding": 0, "dilation": 1, "groups": 1, "bias": np.ones(co, dtype="float32")}}
+        dense = {"k": rng.choice(["Linear", "Affine"]), "args": {"weight": np.ones((4, out_elems), dtype="float32")}}
+        if dense["k"] == "Affine":
+            dense["args"]["bias"] = np.ones(4, dtype="float32")
+        seq = [conv, dense] + ([leaf(rng, "Flatten")] if rng.random() < 0.4 else [])
+        cases.append({"kind": "seq", "recipes": [V.enc_recipe(x) for x in seq], "conv": rng.choice(["varargs", "list", "tuple"])})
     cases.append({"kind": "seq", "recipes": [], "conv": "varargs"})
     cases.append({"kind": "seq", "recipes": [], "conv": "list"})
     return cases
